@@ -29,25 +29,38 @@ CHECKS["C19"] = dict(engine="fsstore", technique="TLC model checking of spec/FsS
    note="Trusted: strace tracing/injection, the kernel's rename and fsync semantics; real power loss is not simulated. Sizes 12..5000 bytes (quick), up to 2 MiB (thorough). Concurrent Save of the same key is outside the property.",
    ref="6 (C19)")
 
-CLIENT_TEXT = ("spec/MqttClient.tla models the client at the grain of its blocking points (one move per segment between two gates; semaphores as "
-  "variables; reader, persisted publishers, Close, the abort and termCallbacks goroutines, a conforming broker, fault budgets). TLC checks the design "
-  "invariants on bounded instances and exports the stimulus of its transitions; the Go harness replays each behaviour against the real code parked at the "
-  "same gates (a step that finds the process at another gate is a divergence; none occur on this tree apart from Go's random choice between two ready "
-  "select cases). In addition: executions of the real client under the gate scheduler (every hook site of the verif build tag and every I/O call on the "
-  "harness's connections, dialer and store is a scheduling point): seeded schedules with injected faults (failed, partial and timed-out "
-  "writes, failed dials, store errors, connection breaks, process stops followed by AdoptSession, store damage), a conforming scripted broker, "
-  "and a healing epilogue (drain, Close, leak check). Every recorded trace is judged by TLC with spec/Monitor.tla: the property's clauses are "
-  "TLA+ predicates over an observation state fed by observable events only. ")
-CLIENT_NOTE = ("Trusted: harness (sim net/broker/store, codec, gate scheduler), TLC. Bounds: 1-3 writer goroutines, 1-3 requests each, windows 1-4, "
-  "<= 4 faults, <= 2 stop/adopt generations per behaviour; 480 (quick) / 2400 (thorough) behaviours per run, seeded by VERIF_SEED. 'Never returns' "
-  "is observed as no event for 250 ms in the healed world with the blocked frame inside the package.")
-for pid, fam in [("C01","out,restart"),("C02","restart"),("C03","out,restart"),("C04","in,inrestart"),("C05","out,restart"),("C07","in"),
-                 ("C08","req,out"),("C14","req,close,out,connect"),("C10","connect,req,out"),("C11","req,close"),("C12","close"),("C13","hostile,in"),("C16","damage"),("C17","out,restart,req"),("C18","connect,out")]:
-    mc = pid in ("C01","C03","C05","C10","C12","C17","C18","C14","C08","C11","C04","C07","C13")
-    CHECKS[pid] = dict(engine="client", level="model_checking" if mc else "exploration",
-        technique=("TLC model checking of spec/MqttClient.tla (gate-level model) + TLC-exported behaviours replayed step by step on the real client + " if mc else "") +
-                  "gate-scheduled executions of the real client (seeded schedules + faults) judged by TLC with the TLA+ observation monitor spec/Monitor.tla",
-        text=CLIENT_TEXT + "Scenario families for this property: " + fam + ".", note=CLIENT_NOTE, ref="5, 6 (%s)" % pid)
+CLIENT_TEXT = ("spec/MqttClient.tla specifies the client at the grain of its blocking points: one move per stretch of code between two gates "
+  "(hook sites of the verif build tag placed after channel operations, I/O calls on the application's net.Conn / Dialer / Persistence, API entries), "
+  "the semaphores as variables holding what the channels hold; read routine with connect, resend, acknowledgement flush, dispatch, toOffline and "
+  "termCallbacks, persisted publishers, requests through lockWrite (Publish, Ping, Subscribe, Unsubscribe, quit during the call), Close and Disconnect, "
+  "the abort goroutine; environment: reference broker with session take-over and retransmission, inbound publications with identifier reuse, fault budgets "
+  "(failed dial, connection reset, write expiry with and without progress, read and store errors), process stops followed by AdoptSession (transcribed), "
+  "records damaged while down, runs that start from a seeded Persistence (also across the 14-bit identifier wrap). TLC checks the design-level invariants, "
+  "one action property and (small instances, under fairness) the temporal properties on bounded instances, exhaustively, and exports the stimulus of its "
+  "transitions. Binding in both directions: (1) the Go harness replays every exported behaviour on the real code built from /repo, parked at the same gates, "
+  "and compares gate and state projection (VerifSnapshot against Proj) after every step - zero divergences and zero mismatches on this tree apart from Go's "
+  "random choice between ready select cases; (2) seeded schedules the explorer chose on its own are validated step by step against the specification's "
+  "actions (spec/ClientTrace.tla) - zero rejections. The seeded explorer additionally covers what the bounded model does not hold (partial reads, read "
+  "expiries, hostile input, messages beyond the read buffer, limits outside 1..16384, long histories). Every recorded trace is judged by TLC with "
+  "spec/Monitor.tla: the property's clauses are TLA+ predicates over an observation state fed by observable events only; only a clause that is false on a "
+  "trace of the real code is a violation. ")
+CLIENT_NOTE = ("Trusted: harness (sim net/broker/store, codec, gate scheduler), TLC. Bounds of the instances: 1-3 application goroutines with 1-3 operations, "
+  "queue limits 1-5, 1-2 faults per kind, 1-2 stops, up to 2 damaged records, 2-4 connections (DESIGN.md 4.1 lists every instance with its size). Explorer: "
+  "720 (quick) / 3600 (thorough) executions per run plus 30 / 300 per instance for the code-to-model validation, seeded by VERIF_SEED. 'Never returns' is "
+  "observed as no event for a quiet period in the healed world with the blocked frame inside the package. Go's select among ready cases cannot be steered: "
+  "a replay runs eight copies.")
+INST = {"C01": "one, q2, live_one, live_f4", "C02": "restart, restart2, seedwrap, seedrels", "C03": "q2, seedwrap0, live_f4", "C04": "in22, in, inrestart",
+        "C05": "two", "C07": "in, in22, inrestart", "C08": "mixreq, two, q12w2", "C10": "one, mixreq, live_one, live_f4",
+        "C11": "req, pings, quit, unsub, devF25 (+ req_b), live_req", "C12": "close, reqclose, disc, discreq (+ close_b), live_close, live_disc",
+        "C13": "in", "C14": "req, close, quit, unsub", "C16": "damage, damage3, damage5, seedmix, seedwrap (+ damage24)", "C17": "max1, one", "C18": "one, req"}
+for pid, fam in [("C01","out,restart,wrap"),("C02","restart,wrap"),("C03","out,restart"),("C04","in,inrestart"),("C05","out,restart"),("C07","in"),
+                 ("C08","req,out"),("C14","req,close,out,connect"),("C10","connect,req,out,in"),("C11","req,close,connect,hostile"),("C12","close"),
+                 ("C13","hostile,in"),("C16","damage,damagein"),("C17","out,restart,req,wrap"),("C18","connect,out")]:
+    CHECKS[pid] = dict(engine="client", level="model_checking",
+        technique="TLC model checking of spec/MqttClient.tla (bounded instances: " + INST[pid] + ") + replay of the TLC-exported behaviours on the real client with "
+                  "gate and state-projection conformance + validation of explorer schedules against the specification's actions (spec/ClientTrace.tla) + "
+                  "gate-scheduled seeded executions with faults; every recorded trace judged by TLC with the observation monitor spec/Monitor.tla",
+        text=CLIENT_TEXT + "Explorer families for this property: " + fam + ".", note=CLIENT_NOTE, ref="4, 5, 6 (%s)" % pid)
 
 def main():
     hooks = subprocess.run(["git", "-C", "/repo", "log", "--format=%h %s"], capture_output=True, text=True).stdout.splitlines()
